@@ -223,8 +223,25 @@ func compactString(dst, src []byte, cursor int64, escape bool) ([]byte, int64, e
 		switch c {
 		case '\\':
 			cursor++
-			if src[cursor] == nul {
+			switch src[cursor] {
+			case '"', '\\', '/', 'b', 'f', 'n', 'r', 't':
+			case 'u':
+				if cursor+4 >= int64(len(src)) {
+					return nil, 0, errors.ErrUnexpectedEndOfJSON("string", int64(len(src)))
+				}
+				for i := int64(1); i <= 4; i++ {
+					h := src[cursor+i]
+					if !(('0' <= h && h <= '9') || ('a' <= h && h <= 'f') || ('A' <= h && h <= 'F')) {
+						return nil, 0, errors.ErrSyntax(
+							fmt.Sprintf("json: invalid character %q in \\u hexadecimal character escape", h), cursor+i,
+						)
+					}
+				}
+				cursor += 4
+			case nul:
 				return nil, 0, errors.ErrUnexpectedEndOfJSON("string", int64(len(src)))
+			default:
+				return nil, 0, errors.ErrInvalidCharacter(src[cursor], "string escape code", cursor)
 			}
 		case '"':
 			cursor++
